@@ -319,6 +319,8 @@ class Engine:
     def ev_Tuple(self, e, st):
         tet = getattr(self.w, 'empty_in_tuple', None)          # (x, set()): the element type of an empty literal inside a tuple comes from the world
         els = [tet.empty() if (tet is not None and self.is_empty_literal(x)) else self.ev(x, st) for x in e.elts]
+        nit = getattr(self.w, 'none_in_tuple', None)          # (flag, None): the type of a None inside a tuple comes from the world (an Optional[value] with a none constant)
+        if nit is not None: els = [Sym(nit, self.w.none_consts[nit.name]) if x.t is TNone else x for x in els]
         t = TTuple(*[x.t for x in els])
         return t.make(**{f'_{i}': x for i, x in enumerate(els)})
 
@@ -391,6 +393,16 @@ class Engine:
         return coll, x, elt, flt
 
     def ev_ListComp(self, e, st):
+        g0 = e.generators[0] if len(e.generators) == 1 else None
+        if g0 is not None and not g0.ifs and isinstance(g0.target, ast.Name) and isinstance(g0.iter, ast.Call) and isinstance(g0.iter.func, ast.Name) and g0.iter.func.id == 'range' \
+                and len(g0.iter.args) == 1 and not any(isinstance(n, ast.Name) and n.id == g0.target.id and isinstance(n.ctx, ast.Load) for n in ast.walk(e.elt)) and getattr(self.w, 'repeat_lists', None):
+            # [v for _ in range(n)] with v not depending on the loop variable: the list of length max(n, 0) holding v everywhere (World.repeat_lists: element type name -> list record)
+            n = self.ev(g0.iter.args[0], st); v = self.ev(e.elt, st)
+            lt = self.w.repeat_lists.get(getattr(v.t, 'name', None))
+            if lt is not None and n.t is TInt:
+                at_t = lt.ftype('at')
+                ln = TInt.fresh('replen'); st.pc.append(ln.term == If(n.term >= 0, n.term, 0))          # a constant for the length: keeps if-terms out of the list term (and out of patterns built on it)
+                return lt.make(len=ln, at=Sym(at_t, K(IntSort(), v.term)))
         coll, x, elt, flt = self.comp_parts(e, st)
         if elt.term.eq(x.term) and is_true(flt): return coll                      # identity map
         if isinstance(coll.t, TSeq):
@@ -824,15 +836,31 @@ class Engine:
                 and isinstance(s.target, ast.Tuple) and len(s.target.elts) == 2:
             coll = self.ev(it.args[0], st)
             if not isinstance(coll.t, TSeq): raise Unsupported(f'enumerate over {coll.t} (line {s.lineno})')
-            def binder(x, env, idx=None):
-                self.bind_target(s.target.elts[0], idx, env); self.bind_target(s.target.elts[1], x, env)
+            def binder(x, env, idx=None, st_=None):
+                if isinstance(s.target.elts[0], ast.Attribute):          # for obj.attr, x in enumerate(...): the counter is stored in an attribute
+                    if st_ is None: raise Unsupported(f'attribute as loop target (line {s.lineno})')
+                    self.assign(s.target.elts[0], idx, st_)
+                else: self.bind_target(s.target.elts[0], idx, env)
+                self.bind_target(s.target.elts[1], x, env)
             return coll, binder
         coll = self.ev(it, st)
         if is_map(coll.t): coll = coll.t.get(coll, 'dom')
         return coll, (lambda x, env, idx=None: self.bind_target(s.target, x, env))
 
     def target_names(self, t):
-        return {n.id for n in ast.walk(t) if isinstance(n, ast.Name)}
+        """names bound by a loop target (an attribute target binds no name: it modifies its root object, see target_roots)"""
+        if isinstance(t, ast.Name): return {t.id}
+        if isinstance(t, (ast.Tuple, ast.List)): return set().union(*[self.target_names(x) for x in t.elts]) if t.elts else set()
+        return set()
+
+    def target_roots(self, t):
+        """root objects modified by a loop header whose target holds an attribute / subscript"""
+        out = set()
+        for x in (t.elts if isinstance(t, (ast.Tuple, ast.List)) else [t]):
+            if isinstance(x, (ast.Attribute, ast.Subscript)):
+                while isinstance(x, (ast.Attribute, ast.Subscript)): x = x.value
+                if isinstance(x, ast.Name): out.add(x.id)
+        return out
 
     def ex_loop(self, s, st, path):
         """a loop body may store a shared reference into a container that the *next* iteration reads (to_process.append((state, visited))): the body is
@@ -855,6 +883,7 @@ class Engine:
         if inv is None: raise Unsupported(f'loop {ordinal} (line {s.lineno}) has no invariant')
         INV = lambda state, done: unwrap(inv(NS(state.env), done))
         mod = self.modified_names(s.body); results = []
+        if isinstance(s, ast.For): mod |= self.target_roots(s.target)
         if self.cur.ghost_updates:                         # ghost variables assigned in this loop or in a loop nested in it are modified by it
             for od, upd in self.cur.ghost_updates.items():
                 if od == ordinal or od.startswith(ordinal + '.'): mod |= {'$g.' + g for g in self.cur.ghost_state} | set(getattr(self.cur, 'ghost_fields_of', ()))
@@ -919,7 +948,8 @@ class Engine:
             elem = coll.term[i.term]
             if is_app_of(coll.term, Z3_OP_SEQ_EXTRACT):       # for x in seq[lo:]: the element is seq[lo + idx] (lo >= 0 is an obligation of the slice); avoids seq.extract under quantifiers
                 elem = coll.term.arg(0)[coll.term.arg(1) + i.term]; it.pc.append(elem == coll.term[i.term])
-            binder(Sym(t.elem, elem), it.env, i)
+            try: binder(Sym(t.elem, elem), it.env, i, it)
+            except TypeError: binder(Sym(t.elem, elem), it.env, i)
             finish(self.ex_block(s.body, it, path), lambda e_st: INV(e_st, Sym(TInt, i.term + 1)))
             results.append((exit_state(lambda x: INV(x, Sym(TInt, Length(coll.term)))), 'normal')); return results
         if isinstance(t, (TSet, TBag)):
